@@ -190,7 +190,7 @@ def run(ctx):
         for s in ctx.samples:
             s.pop("implementation", None)
     # hardware configuration (get_is_using_hardware() on): values that fit the widths behave as specified
-    hcases = generate_hardware(ctx, 500 if quick else 10000, 4 if quick else 60, fuel)
+    hcases = generate_hardware(ctx, 500 if quick else 5000, 4 if quick else 30, fuel)
     n_h = len(hcases)
     hres = evaluate(ctx, hcases, "hardware")
     if hres is not None:
